@@ -7,7 +7,7 @@ fields, resolving references through the per-IR UUID table to the very object re
 DeserializationError when the referenced node is missing or of the wrong kind."""
 import z3
 from pyvc.contracts import Contract
-from pyvc.core import (SV, Val, VNone, VInt, VBool, VRef, VStr, VUuid, VEnum, is_VNone, is_VInt, is_VBool, is_VRef, is_VStr,
+from pyvc.core import (SV, Val, VNone, VInt, VBool, VRef, VStr, VUuid, VEnum, VPair, is_VNone, is_VInt, is_VBool, is_VRef, is_VStr,
                        is_VUuid, is_VEnum, ival, bval, ref, uval, enum_, ecls, fresh, Int, to_val)
 from pyvc.iomodel import IoContract, BSeq, blob_seq, blob_val, oid, u2b, b2u, is_VOpaque
 from pyvc.pbmodel import RANGES
@@ -305,7 +305,12 @@ class MakeEdge(IoContract):
     props = ("C02", "C09", "C17", "C01")
     inline_callees = INL
     params = {"ir": "ref:IR", "edge": "pb:Edge"}
-    modifies = lambda self, c0, a: {"$alive": NEW, "$kind": NEW}
+    modifies = ()           # Edge and Edge.Label are named tuples (values): nothing is allocated or written
+
+    @staticmethod
+    def result(eng, st, name):
+        return SV("tuple", x=[SV("val", fresh(name + "_src", Val), cls="CfgNode"), SV("val", fresh(name + "_tgt", Val), cls="CfgNode"),
+                              SV("val", fresh(name + "_label", Val), cls="EdgeLabel")], cls="Edge")
 
     def pre(self, c, a):
         m = a.edge.t
@@ -344,6 +349,7 @@ class MakeEdge(IoContract):
         lv = to_val(label)
         from pyvc.core import fst, snd
         out["label_fields"] = z3.Implies(is_VRef(lab), z3.And(
+            Val.is_VPair(lv), Val.is_VPair(snd(lv)), Val.is_VPair(snd(snd(lv))), is_VNone(snd(snd(snd(lv)))),
             fst(lv) == VEnum(tcls, tnum),
             fst(snd(lv)) == f(c0, "EdgeLabel", "conditional", ref(lab)),
             fst(snd(snd(lv))) == f(c0, "EdgeLabel", "direct", ref(lab))))
@@ -1204,3 +1210,232 @@ def register(reg):      # noqa: F811
     _reg_prev4(reg)
     reg.add(ByteIntervalToPbScalars())
     reg.add(ByteIntervalToPbAbstract())
+
+
+class ModuleDecodeScalars(IoContract):
+    """Module._decode_protobuf, construction segment: the new module's scalar attributes equal the message fields, the enum
+    fields are the Python constants of the schema numbers (ValueError for a number the schema does not define), and the module
+    starts empty and unattached"""
+    target = "module.py::Module._decode_protobuf"
+    variant = "scalars"
+    props = ("C02", "C17", "C01")
+    inline_all = True
+    self_cls = "Module"
+    params = {"proto_module": "pb:Module", "uuid": "val", "ir": "ref:IR"}
+    selects = staticmethod(lambda self_cls, args, kwargs=None: False)
+    segment = (lambda src: src.startswith("m = cls("), lambda src: src.startswith("m._add_to_uuid_cache("))
+    part_note = "the statement `m = cls(...)` (construction of the module from the scalar fields)"
+    ENUMS = {"isa": ("Module.ISA", "ISA"), "file_format": ("Module.FileFormat", "FileFormat"), "byte_order": ("Module.ByteOrder", "ByteOrder")}
+
+    def modifies(self, c0, a):
+        return {"*": None}
+
+    def pre(self, c, a):
+        return {"message_typed": c.eng.schema.pb.typed(c, a.proto_module.t, "Module"), "uuid_typed": is_VUuid(to_val(a.uuid))}
+
+    def raises(self, c0, a):
+        m = a.proto_module.t
+        bad = []
+        for fld, (_q, en) in self.ENUMS.items():
+            nums = [n for (_, n) in c0.eng.schema.pb.enums[en]]
+            bad.append(z3.Not(z3.Or([ival(f(c0, "Module", fld, m)) == k for k in nums])))
+        return {"ValueError": z3.Or(bad)}
+
+    def frame_obligations(self, eng, c0, c1, a):
+        # the segment binds the local `m`: its effect is stated on the only Module object allocated in it
+        p = a.proto_module.t
+        n = fresh("n", Int)
+        mod = c1.eng.schema.class_id("Module")
+        fields = [c1.get("uuid", n) == to_val(a.uuid), is_VNone(c1.get("_ir", n)), is_VNone(c1.get("entry_point", n))]
+        for k in ("binary_path", "name", "preferred_addr", "rebase_delta"):
+            fields.append(c1.get(k, n) == f(c0, "Module", k, p))
+        for fld, (q, _en) in self.ENUMS.items():
+            fields.append(c1.get(fld, n) == VEnum(c1.eng.schema.class_id(q), ival(f(c0, "Module", fld, p))))
+        return {"module_fields_from_message": z3.ForAll([n], z3.Implies(
+            z3.And(NEW(c0, a, n), z3.Select(c1.arr("$alive"), n), c1.kind(n) == mod), z3.And(fields)))}
+
+
+_reg_prev5 = register
+
+
+def register(reg):      # noqa: F811
+    _reg_prev5(reg)
+    reg.add(ModuleDecodeScalars())
+
+
+class SectionDecodeScalars(IoContract):
+    """Section._decode_protobuf, construction segment: name and UUID from the message, flags = the Python constants of the
+    message's flag numbers (ValueError for a number the schema does not define); the section starts empty and unattached"""
+    target = "section.py::Section._decode_protobuf"
+    variant = "scalars"
+    props = ("C02", "C17", "C01")
+    inline_all = True
+    generators_fully_consumed = True       # Section.__init__ does set(flags) on the generator it is given
+    self_cls = "Section"
+    params = {"proto_section": "pb:Section", "uuid": "val", "ir": "ref:IR"}
+    selects = staticmethod(lambda self_cls, args, kwargs=None: False)
+    segment = (lambda src: src.startswith("s = cls("), lambda src: src.startswith("s._add_to_uuid_cache("))
+    part_note = "the statement `s = cls(...)`"
+
+    def modifies(self, c0, a):
+        return {"*": None}
+
+    def _flags(self, c0, a):
+        return z3.Select(c0.arr("pb.Section.section_flags#set"), a.proto_section.t)
+
+    def pre(self, c, a):
+        x = fresh("x", Val)
+        return {"message_typed": z3.And(c.eng.schema.pb.typed(c, a.proto_section.t, "Section"),
+                                        z3.ForAll([x], z3.Implies(z3.Select(self._flags(c, a), x), is_VInt(x)))),
+                "uuid_typed": is_VUuid(to_val(a.uuid))}
+
+    def raises(self, c0, a):
+        x = fresh("x", Val)
+        nums = [n for (_, n) in c0.eng.schema.pb.enums["SectionFlag"]]
+        return {"ValueError": z3.Exists([x], z3.And(z3.Select(self._flags(c0, a), x), z3.Not(z3.Or([ival(x) == k for k in nums]))))}
+
+    def frame_obligations(self, eng, c0, c1, a):
+        p = a.proto_section.t
+        n = fresh("n", Int)
+        x, y = fresh("x", Val), fresh("y", Val)
+        fcls = c1.eng.schema.class_id("Section.Flag")
+        flags = z3.Select(c1.arr("Section.flags"), n)
+        return {"section_fields_from_message": z3.ForAll([n], z3.Implies(
+            z3.And(NEW(c0, a, n), z3.Select(c1.arr("$alive"), n), c1.kind(n) == c1.eng.schema.class_id("Section")),
+            z3.And(c1.get("uuid", n) == to_val(a.uuid), c1.get("name", n) == f(c0, "Section", "name", p),
+                   is_VNone(c1.get("_module", n)),
+                   z3.ForAll([x], z3.Select(flags, x) == z3.Exists([y], z3.And(z3.Select(self._flags(c0, a), y),
+                                                                              x == VEnum(fcls, ival(y))))))))}
+
+
+_reg_prev6 = register
+
+
+def register(reg):      # noqa: F811
+    _reg_prev6(reg)
+    reg.add(SectionDecodeScalars())
+
+
+class IntervalDecodeScalars(IoContract):
+    """ByteInterval._decode_protobuf, construction of the interval (with the block list left out): the address is present iff
+    the has_address flag is set (an address of 0 with the flag set is address 0; a non-zero address field without the flag is
+    no address), size and contents are the message's, and more content bytes than size are rejected with ValueError"""
+    target = "byteinterval.py::ByteInterval._decode_protobuf"
+    variant = "scalars"
+    props = ("C02", "C17", "C19", "C01")
+    inline_all = True
+    self_cls = "ByteInterval"
+    params = {"proto_interval": "pb:ByteInterval", "uuid": "val", "ir": "ref:IR"}
+    selects = staticmethod(lambda self_cls, args, kwargs=None: False)
+    segment = (lambda src: not src.startswith(("assert ", "def ")), lambda src: src.startswith("result._add_to_uuid_cache("))
+    drop_kwarg = ("blocks",)
+    part_note = "the statement `result = cls(...)` without its blocks= argument (the interval is built without blocks)"
+
+    def modifies(self, c0, a):
+        return {"*": None}
+
+    def pre(self, c, a):
+        return {"message_typed": c.eng.schema.pb.typed(c, a.proto_interval.t, "ByteInterval"), "uuid_typed": is_VUuid(to_val(a.uuid))}
+
+    def _p(self, c0, a):
+        p = a.proto_interval.t
+        contents = blob_seq(oid(f(c0, "ByteInterval", "contents", p)))
+        return p, contents, ival(f(c0, "ByteInterval", "size", p))
+
+    def raises(self, c0, a):
+        p, contents, size = self._p(c0, a)
+        return {"ValueError": z3.Length(contents) > size}
+
+    def frame_obligations(self, eng, c0, c1, a):
+        from pyvc.iomodel import arr_seq
+        p, contents, size = self._p(c0, a)
+        n = fresh("n", Int)
+        has = bval(f(c0, "ByteInterval", "has_address", p))
+        items, ln = z3.Select(c1.arr("contents#items"), n), z3.Select(c1.arr("contents#len"), n)
+        i = fresh("i", Int)
+        return {"interval_fields_from_message": z3.ForAll([n], z3.Implies(
+            z3.And(NEW(c0, a, n), z3.Select(c1.arr("$alive"), n), c1.kind(n) == c1.eng.schema.class_id("ByteInterval")),
+            z3.And(c1.get("uuid", n) == to_val(a.uuid),
+                   c1.get("_address", n) == z3.If(has, f(c0, "ByteInterval", "address", p), VNone),
+                   c1.get("_size", n) == VInt(size),
+                   ln == z3.Length(contents),
+                   z3.ForAll([i], z3.Implies(z3.And(0 <= i, i < ln), z3.Select(items, i) == VInt(contents[i]))),
+                   is_VNone(c1.get("_section", n)))))}
+
+
+_reg_prev7 = register
+
+
+def register(reg):      # noqa: F811
+    _reg_prev7(reg)
+    reg.add(IntervalDecodeScalars())
+
+
+
+class CfgFromPb(IoContract):
+    """CFG._from_protobuf(edges, ir): a new CFG whose edge set is exactly the set of edges make_edge builds from the messages
+    (endpoints = the table's objects, labels as in the messages); any message that make_edge rejects makes the call raise"""
+    target = "cfg.py::CFG._from_protobuf"
+    props = ("C02", "C09", "C17", "C01", "C11")
+    inline_callees = INL
+    generators_fully_consumed = True        # CFG.update iterates over all edges
+    params = {"edges": "pbrep:CFG.edges", "ir": "ref:IR"}
+    result = "ref:CFG"
+
+    def modifies(self, c0, a):
+        return {"*": None}
+
+    def frame_obligations(self, eng, c0, c1, a):
+        return {}
+
+    def _msgs(self, c, a):
+        r_, _m, _a = a.edges.x
+        return z3.Select(c.arr("pb.CFG.edges#set"), r_)
+
+    def pre(self, c, a):
+        x = fresh("x", Val)
+        from pyvc.contracts import Args
+        a2 = Args()
+        a2["ir"] = a.ir
+        a2["edge"] = SV("ref", ref(x), cls="pb:Edge")
+        mp = MakeEdge().pre(c, a2)
+        return {"messages_typed": z3.ForAll([x], z3.Implies(z3.And(z3.Select(self._msgs(c, a), x), is_VRef(x)), z3.And(list(mp.values())))),
+                "is_ir": c.isinst(a.ir.t, "IR")}
+
+    def _edge_of(self, c0, a, x):
+        """(ok, source, target, label) that make_edge computes for message x"""
+        from pyvc.contracts import Args
+        a2 = Args()
+        a2["ir"] = a.ir
+        a2["edge"] = SV("ref", ref(x), cls="pb:Edge")
+        me = MakeEdge()
+        sb, tb, sv, tv, cfgn, lab, tnum, members = me._parts(c0, a2)
+        rz = me.raises(c0, a2)
+        bad = z3.Or(list(rz.values()))
+        tcls = c0.eng.schema.class_id("EdgeType")
+        label = z3.If(is_VNone(lab), VNone, VPair(VEnum(tcls, tnum), VPair(f(c0, "EdgeLabel", "conditional", ref(lab)),
+                                                                           VPair(f(c0, "EdgeLabel", "direct", ref(lab)), VNone))))
+        return bad, sv, tv, label
+
+    def may_raise(self, c0, a):
+        x = fresh("x", Val)
+        bad, sv, tv, label = self._edge_of(c0, a, x)
+        return {"Exception": z3.Exists([x], z3.And(z3.Select(self._msgs(c0, a), x), is_VRef(x), bad))}
+
+    def post(self, c0, c1, a, res):
+        from contracts.cfg import in_view, wf_cfg
+        x = fresh("x", Val)
+        s_, t_, l_ = fresh("s", Val), fresh("t", Val), fresh("l", Val)
+        bad, sv, tv, label = self._edge_of(c0, a, x)
+        return {"new_cfg": NEW(c0, a, res.t), "well_formed": wf_cfg(c1, res.t),
+                "no_message_was_rejected": z3.ForAll([x], z3.Implies(z3.And(z3.Select(self._msgs(c0, a), x), is_VRef(x)), z3.Not(bad))),
+                "edges_are_exactly_those_of_the_messages": z3.ForAll([s_, t_, l_], in_view(c1, res.t, s_, t_, l_) == z3.Exists(
+                    [x], z3.And(z3.Select(self._msgs(c0, a), x), is_VRef(x), sv == s_, tv == t_, label == l_)))}
+
+
+_reg_prev8 = register
+
+
+def register(reg):      # noqa: F811
+    _reg_prev8(reg)
+    reg.add(CfgFromPb())
